@@ -305,7 +305,7 @@ ADDED["C01"] = " Added: interpolated expressions keep their Mamba meaning (known
 ROUND9 = {
     "C05": " Round 9: the recorded parameter (ClassArgument / GenericFunctionArg::try_from) has has_default exactly when the declaration carries a default, with its own "
            "mutable / vararg flags and name; every operand of a range or slice gets `Int >= operand` and is generated in the incoming environment (violated on the "
-           "pinned tree: a Float / Int? bound was accepted; repaired); known finding: the constructor call behind `raise` is never generated.",
+           "pinned tree: a Float / Int? bound was accepted; repaired); known finding: the constructor call behind `raise` is never generated; gen_class hands the class arguments to constraint generation (violated on the pinned tree: defaults of class arguments were unchecked; repaired).",
     "C04": " Round 9: range / slice operands are Ints and all visited; the assigned-field kernels of C09 (a field that stays the class-level None) are decided here too.",
     "C06": " Round 9: the per-member nullable test is replayed with a partly nullable union receiver; in `with r as a[: T]` the resource-alias link is added on every "
            "path and the resource is never equated with Any (violated on the pinned tree: `with f() as y: Int` passed whatever f returns; repaired).",
